@@ -49,6 +49,8 @@ Result run(const std::vector<std::function<void()>>& bodies, const Options& opt)
 int self() noexcept;                       // dsched thread id (0..), -1 if unregistered
 uint64_t now_ns() noexcept;                // virtual time
 void advance_time(uint64_t ns) noexcept;   // client-program step: let virtual time pass
+void step_wall_clock(int64_t ns) noexcept; // step the calendar clocks (CLOCK_REALTIME*, CLOCK_TAI) by ns, either direction;
+                                           // monotonic clocks are unaffected; the offset persists until stepped back
 uint64_t stamp() noexcept;                 // global step counter (monotone), for begin/end stamps
 
 // dynamic site table (file:line kind order) seen so far in this process
